@@ -86,6 +86,7 @@ type FnCtx struct {
 	globalSeen map[string]bool
 	anchorsDone map[string]bool
 	ghosts   map[string]Val
+	callSiteSeen map[string]bool
 	tracked  map[string]bool
 	crType   map[string]types.Type
 	subSeen  map[string]bool
@@ -160,13 +161,18 @@ func (fc *FnCtx) unboundAnchors() []string {
 		return false
 	}
 	for _, a := range fc.con.Asserts {
-		if !has(a.Anchor) {
+		if !a.Optional && !has(a.Anchor) {
 			out = append(out, a.Anchor)
 		}
 	}
 	for _, a := range fc.con.Stored {
 		if !has(a.Anchor) {
 			out = append(out, a.Anchor)
+		}
+	}
+	for _, a := range fc.con.CallSites {
+		if !fc.callSiteSeen[a.Anchor] {
+			out = append(out, "call to "+a.Anchor)
 		}
 	}
 	return out
